@@ -343,6 +343,16 @@ func symDecModes(alg string) []string {
 	return m
 }
 
+// ignoredNonceLen is the nonce length of a well-formed call: the algorithm's own, and for the algorithms that take no
+// nonce (key wrap) whatever a generic caller passes anyway - nothing, or 7 / 8 / 12 / 16 / 24 bytes; it is an argument
+// like any other and stays unchanged.
+func ignoredNonceLen(s refcrypto.SymSpec, seed uint64) int {
+	if s.Nonce >= 0 {
+		return s.Nonce
+	}
+	return []int{0, 8, 0, 12, 8, 16, 7, 24}[seed%8]
+}
+
 func (k *call) symEnc(api string) {
 	c := k.c
 	s, ok := refcrypto.Spec(c.Alg)
@@ -350,7 +360,7 @@ func (k *call) symEnc(api string) {
 		k.harness = "no specification for " + c.Alg
 		return
 	}
-	keyLen, nonceLen, ptLen := s.Key, max(s.Nonce, 0), effLen(s, c.Len)
+	keyLen, nonceLen, ptLen := s.Key, ignoredNonceLen(s, c.Seed), effLen(s, c.Len)
 	switch c.Mode {
 	case "badkeysize":
 		keyLen = s.Key + 1 + int(c.Seed%7)
@@ -402,7 +412,7 @@ func (k *call) symDec(api string) {
 		k.harness = "no specification for " + c.Alg
 		return
 	}
-	keyB, nonceB, ptB, aadB := k.rnd("key", s.Key), k.rnd("nonce", max(s.Nonce, 0)), k.rnd("pt", effLen(s, c.Len)), k.rnd("aad", c.AadLen)
+	keyB, nonceB, ptB, aadB := k.rnd("key", s.Key), k.rnd("nonce", ignoredNonceLen(s, c.Seed)), k.rnd("pt", effLen(s, c.Len)), k.rnd("aad", c.AadLen)
 	ctB, tagB, err := s.Encrypt(keyB, nonceB, ptB, aadB)
 	if err != nil {
 		k.harness = "reference encryption: " + err.Error()
